@@ -33,7 +33,7 @@ def digests(rw):
 
 
 def expected_decimals(rw, rec):
-    return [rw.reg[a[1]] if a[0] == "n" else rw.true_dec[a] for a in rec["assets"]]
+    return [rw.reg[a[1]] if a[0] == "n" else rec["decimals"][i] for i, a in enumerate(rec["assets"])]
 
 
 def verify_all(rw, acc, denom, before_dig, before_rec, case):
@@ -125,6 +125,18 @@ def run_registry(acc, srv, key, target_pairs, star=False):
             continue
         if rng.random() < 0.08 and len(rw.model) >= 3:
             rw.kill_token(rng, acc)
+        if rw.broken and rng.random() < 0.7:
+            # pairs that were out of order are migrated back: whatever happened meanwhile, they must agree with the registry again
+            rw.repair_pairs(acc)
+            if not rw.broken:
+                d0 = rng.choice(sorted(rw.reg))
+                probs, _ = verify_all(rw, acc, d0, digests(rw), {}, {})
+                acc.ev()
+                if probs:
+                    acc.violation("after pairs that had been migrated to foreign code were migrated back: %s" % "; ".join(probs[:3]),
+                                  {"kind": "registry", "world_key": list(key), "step": step})
+        elif not rw.broken and rng.random() < 0.1 and len(rw.model) >= 2:
+            rw.break_pair(rng, acc)
         if rng.random() < 0.5:
             # administrative actions before the update: pair migrations, another pair code id for future pairs, the factory's own
             # migration, direct (unauthorised) update messages: the update after them must still reach every affected pair
@@ -266,6 +278,8 @@ def floors(acc, tier):
     _w.need(acc, msgs, "admin_noise_padded_denom_err", 20)
     _w.need(acc, msgs, "long_history_updates", 1500)
     _w.need(acc, msgs, "admin_noise_kill_token_ok", 5)
+    _w.need(acc, msgs, "admin_noise_break_pair_ok", 5)
+    _w.need(acc, msgs, "admin_noise_repair_pair_ok", 5)
     if not any("|pos01|" in k for k in acc.classes):
         msgs.append("no update where the denom sat in both positions across pairs")
     return msgs
